@@ -266,10 +266,11 @@ func originsCase(e *ev.Env, c *ev.Case) {
 		mode: r.PickW(3, 4, 3, 2), host: gen.Pick(r, originHosts), prefix: "t" + r.StringFrom(gen.Lower+gen.Digits, 5)}
 	cfg.req = hostTuple(schemeOf(cfg.mode), cfg.host)
 	cfg.trusted, cfg.trustedCfg = genTrusted(r)
+	cfg.customMethods = r.Chance(1, 3)
 	hs := &histSpec{cfg: cfg, nClients: 1, steps: mkSteps("fetch")}
 	n := r.Range(2, 5)
 	for i := 0; i < n; i++ {
-		s := step{kind: kPost, method: gen.Pick(r, unsafeMethods), sidSel: selOwn, ext: selOwn, ck: selOwn, label: "own", orig: ofExplicit}
+		s := step{kind: kPost, method: unsafeFor(r, cfg), sidSel: selOwn, ext: selOwn, ck: selOwn, label: "own", orig: ofExplicit}
 		switch r.PickW(92, 4, 4) {
 		case 1:
 			s.ext, s.ck, s.label = selForged, selForged, "forged"
@@ -502,6 +503,26 @@ func corpus(e *ev.Env) {
 					hs.steps = append(hs.steps, probe(cfg, v, ""), probe(cfg, "", v))
 				}
 				runHistory(e, c, hs, nil, "")
+			}
+		}
+	})
+	// Every method other than GET/HEAD/OPTIONS/TRACE is unsafe: each of them without a token, with a
+	// forged one, with another client's token in the extractor, and with the own live token.
+	e.Corpus("unsafe-methods", func(c *ev.Case) {
+		for _, be := range []string{bVstore, bSessStore} {
+			for _, ex := range []string{"header", "query", "cookie"} {
+				cfg := fixedCfg(be, ex, false)
+				cfg.customMethods = true
+				hs := &histSpec{cfg: cfg, nClients: 2, steps: mkSteps("fetch:0", "fetch:1")}
+				for _, m := range append(append([]string{"POST", "PUT", "PATCH", "DELETE", "CONNECT"}, customMethods...), "POST") {
+					st := mkSteps("no-extractor-value:0", "forged:0", "other-in-extractor:0", "no-cookie:0", "own:0")
+					for i := range st {
+						st[i].method = m
+					}
+					hs.steps = append(hs.steps, st...)
+				}
+				_, nt := runHistory(e, c, hs, nil, "")
+				noteHistory(e, hs, nt)
 			}
 		}
 	})
